@@ -236,6 +236,7 @@ pub fn classify(s: &Shape) -> CaseInfo {
 }
 
 pub fn run(ctx: &Ctx, rep: &mut Report) {
+    rep.journal_cases = true;
     rep.trust("reference: the newest populated directory of a contiguous rotation run with distinct increasing upload times; the simulator's request log");
     rep.assume("populated directories form one contiguous run in rotation order with distinct increasing first-chunk times (the statement's domain)");
 
